@@ -161,6 +161,14 @@ func (rl *Shell) init() {
 	// Some accept-* commands must fetch a specific
 	// line outright, or keep the accepted one.
 	history.Init(rl.History)
+
+	// The line kept or fetched is given with the cursor at its end: when the
+	// previous call was left in Vim command mode, put it back on a character.
+	switch rl.Keymap.Main() {
+	case keymap.ViCommand, keymap.ViMove, keymap.Vi:
+		rl.cursor.CheckCommand()
+	}
+
 	rl.History.Save()
 
 	// Reset/initialize user interface components.
